@@ -880,3 +880,120 @@ def recording_loops_rule(m, rid):
             r.fail("Use_Stmt.match|only-loop|%s" % cname, "Use_Stmt.match: a %s entry of the ONLY list can be passed over without being added to "
                    "only_list (%s)" % (cname, ", ".join(sorted({b[0] for b in bad}))), m.loc(u, br))
     return r
+
+
+# ---------------------------------------------------------------------------------------------------------------
+# who may raise StopIteration below Program.match: its handler takes StopIteration for "the source is exhausted"
+def eof_probe_rule(m, rid):
+    r = RuleResult(rid, "inside the parser only Program.match's end-of-input probe calls reader.next(); every matcher reads through "
+                        "reader.get_item(), which answers None at the end: a StopIteration raised below Program.match would be taken for the "
+                        "normal end of the source and the construct that was still open would be dropped without an error")
+    r.floor = 4
+    probes = 0
+    for (path, q), f in sorted(m.funcs.items()):
+        if not f.module.startswith("fparser.two"):
+            continue
+        for n in A.body_nodes(f.node):
+            hit = None
+            if isinstance(n, ast.Call):
+                if isinstance(n.func, ast.Attribute) and n.func.attr in ("next", "__next__") and not (isinstance(n.func.value, ast.Name) and n.func.value.id in ("re",)):
+                    hit = A.text(n)[:50]
+                elif isinstance(n.func, ast.Name) and n.func.id == "next" and len(n.args) == 1:
+                    hit = A.text(n)[:50]
+                elif isinstance(n.func, ast.Attribute) and n.func.attr == "get_item":
+                    r.instances += 1
+            elif isinstance(n, ast.Raise) and n.exc is not None and A.text(n.exc).startswith("StopIteration"):
+                hit = A.text(n)[:50]
+            if hit is None:
+                continue
+            r.instances += 1
+            ok = (f.module, q) == (F03, "Program.match")
+            if ok:
+                probes += 1
+                # the probe must sit in a try whose handler catches StopIteration, and be followed by put_item
+                ok = any(isinstance(t, ast.Try) and any(h.type is not None and "StopIteration" in A.text(h.type) for h in t.handlers)
+                         and any(x is n for x in ast.walk(t)) for t in A.body_nodes(f.node))
+            r.ob(ok, "%s.%s: %s" % (f.module, q, hit))
+            if not ok:
+                r.fail("%s:%s|stop-iteration" % (f.module, q), "%s.%s calls `%s`, which raises StopIteration at the end of the source: Program.match "
+                       "catches StopIteration as 'no more lines' and returns what it has, so an unterminated construct or program unit that "
+                       "reaches the end of the file is accepted (use reader.get_item(), which returns None there)" % (f.module, q, hit), m.loc(f, n))
+    if probes != 1:
+        r.error("Program.match has %d end-of-input probes (expected exactly 1; anchor changed)" % probes)
+    return r
+
+
+# ---------------------------------------------------------------------------------------------------------------
+# definite None dereference (path-sensitive): `x.attr` / `x[i]` reached in a state where x is exactly None
+class _NoneClient(F.Client):
+    track = None
+
+    def __init__(self, track=None):
+        self.track = track
+        self.hits = []
+
+    def on_stmt(self, stmt, st):
+        for n in ast.walk(stmt):
+            if isinstance(n, (ast.Attribute, ast.Subscript)) and isinstance(n.ctx, ast.Load) and isinstance(n.value, ast.Name) \
+                    and st.get(n.value.id) == F.NONE:
+                self.hits.append(n)
+
+
+NONE_DEREF_EXCEPTIONS = {
+    # (qualname, variable): reason -- a correlation between two tests that the path analysis cannot see, confirmed by reading
+    ("Use_Stmt.match", "only_list"): "result[4] is an Only_List only when result[3] is ', ONLY:' (Use_Stmt._match returns them together), "
+                                     "and only_list is set to [] exactly then",
+}
+
+
+def definite_none_rule(m, rid, prefixes=("fparser.two", "fparser.common.readfortran")):
+    from sa.model import AnalysisError
+    r = RuleResult(rid, "no statement dereferences a variable on a path on which it is None for certain (e.g. a clean-up loop that uses the "
+                        "variable tested `is None` just before instead of its loop variable): such a path ends in AttributeError/TypeError "
+                        "instead of a match, no-match or syntax error")
+    r.floor = 30
+    seen_exc = set()
+    for (path, q), f in sorted(m.funcs.items()):
+        if not f.module.startswith(prefixes):
+            continue
+        names_none = set()
+        for n in A.body_nodes(f.node):
+            if isinstance(n, ast.Assign) and A.const(n.value, 1) is None:
+                names_none |= {t.id for t in n.targets if isinstance(t, ast.Name)}
+            if isinstance(n, ast.Compare) and len(n.ops) == 1 and isinstance(n.ops[0], (ast.Is, ast.IsNot)) \
+                    and A.const(n.comparators[0], 1) is None and isinstance(n.left, ast.Name):
+                names_none.add(n.left.id)
+        deref = {n.value.id for n in A.body_nodes(f.node) if isinstance(n, (ast.Attribute, ast.Subscript)) and isinstance(n.value, ast.Name)}
+        cand = names_none & deref
+        if not cand:
+            continue
+        r.instances += 1
+        cl = _NoneClient()
+        try:
+            F.Flow(m, f, cl).run(F.State({}))
+        except AnalysisError:
+            cl = _NoneClient(set(cand))
+            try:
+                F.Flow(m, f, cl).run(F.State({}))
+            except AnalysisError as err:
+                r.undet("%s: %s" % (f.qualname, err))
+                continue
+        seen = set()
+        bad = []
+        for n in cl.hits:
+            if id(n) in seen:
+                continue
+            seen.add(id(n))
+            if (f.qualname, n.value.id) in NONE_DEREF_EXCEPTIONS:
+                seen_exc.add((f.qualname, n.value.id))
+                continue
+            bad.append(n)
+        r.ob(not bad, "%s: %s never dereferenced while None" % (f.qualname, sorted(cand)) if r.instances % 8 == 0 else None)
+        for n in bad[:2]:
+            r.fail("%s|none-deref|%s" % (f.qualname, n.value.id), "%s: `%s` is evaluated on a path on which `%s` is None (it was assigned or tested "
+                   "None and not re-bound since): the parse ends in AttributeError/TypeError there instead of reporting no match or a syntax "
+                   "error at the offending line" % (f.qualname, A.text(n)[:50], n.value.id), m.loc(f, n))
+    for key in NONE_DEREF_EXCEPTIONS:
+        if key not in seen_exc:
+            r.notes.append("exception %s.%s no longer needed (table entry stale)" % key)
+    return r
